@@ -124,7 +124,9 @@ def Env.release (e : Env) : Env × Bool :=
       else (e, any)
     | _, _ => (e, any)
   let (e, any) := go (e.segs.length + 1) e false
-  ({ e with tr := { e.tr with hold := !e.segs.isEmpty } }, any)
+  -- releasing input wakes a parked read
+  let wake := any && e.tr.readWaker
+  ({ e with tr := { e.tr with hold := !e.segs.isEmpty, woken := e.tr.woken || wake, readWaker := if any then false else e.tr.readWaker } }, any)
 
 def showIo : IoErr → String
   | .connectionAborted => "aborted" | .invalidData => "invalid" | .other => "other" | .unexpectedEof => "eof"
@@ -312,20 +314,20 @@ def runTask (fuel : Nat) (c : Conn) (pollNo : Nat) (stopAt : Option Nat) : Conn 
   | fuel + 1 =>
     let c := if stopAt == some pollNo then { c with stop := true } else c
     let (env, _) := c.env.release
+    let env := { env with tr := { env.tr with woken := false } }
     let c := { c with env := env.ev s!"|{pollNo}" }
     match pollConn 100000 c with
     | (c, .finished) => (c, "RET")
     | (c, .panic _) => (c, "PANIC")
     | (c, .pending) =>
-      -- why did it suspend? the last transport event tells
-      let last := c.env.tr.events.getLast?.getD ""
-      let waitingForInput := last.endsWith ":W"
-      if !waitingForInput then runTask fuel c (pollNo + 1) stopAt
+      if c.env.tr.woken then runTask fuel c (pollNo + 1) stopAt
       else
-        let (env, released) := c.env.release
-        if released then runTask fuel { c with env := env } (pollNo + 1) stopAt
-        else match stopAt with
-          | some k => if k > pollNo then runTask fuel c k stopAt else (c, "STALL")
+        let (env, _) := c.env.release
+        if env.tr.woken then runTask fuel { c with env := env } (pollNo + 1) stopAt
+        else
+          let c := { c with env := env }
+          match stopAt with
+          | some k => if k > pollNo && !c.stop then runTask fuel c k stopAt else (c, "STALL")
           | none => (c, "STALL")
 
 end Fcgi.Run
